@@ -29,6 +29,8 @@ class Context:
     send_command: Callable[[spawned.Command], None] | None = None
     running_process: RunningProcess[spawned.RunResult] | None = None
     exited_process: ExitedProcess[spawned.RunResult] | None = None
+    # (trace_no, prompt_no) of the prompts known to be open in the current run
+    open_prompts: set[tuple[int, int]] = dataclasses.field(default_factory=set)
 
 
 @hookspec
